@@ -134,6 +134,17 @@ def generate(tier):
                     for sub in subsets:
                         if len(sub) == 1 and max(cand[i] for i in sub) > 0.0:
                             cases.append({"rows": rows, "durs": durs, "form": "time_course", "grid": sub, "relative": False, "start": start, "cols": cols})
+    # protocols that last a day and more (step ends are time deltas: days + seconds), and a sub-second step after a long one
+    for rows, durs in (([3, 2], [43200.0, 43200.0]), ([3, 5, 2], [43200.0, 43200.0, 43200.0]), ([5, 3], [90000.0, 1000.5]), ([2], [86400.0]),
+                       ([3, 4], [100000.0, 0.5]), ([1, 3], [0.5, 172800.0])):
+        cand = candidates(durs)
+        for start in ("fresh", "continued"):
+            for tps in (1, 3):
+                cases.append({"rows": rows, "durs": durs, "form": "protocol", "tps": tps, "start": start})
+            for sub in ([i] for i in range(len(cand))):
+                if cand[sub[0]] > 0.0:
+                    for rel in (False, True):
+                        cases.append({"rows": rows, "durs": durs, "form": "time_course", "grid": sub, "relative": rel, "start": start})
     return cases
 
 
